@@ -827,6 +827,10 @@ def evaluate(chk, cases):
                  f"o_eval {variant} here i {coq_asg(raw)}" if raw is not None else "OL []",
                  f"o_point here i {coq_asg(raw)}" if raw is not None else "OL []",
                  "OL [" + "; ".join(f"o_eval {variant} here i {coq_asg(a)}" for a, _, _ in rep) + "]"]
+        # premise of C04_minor_noise_free (decidable, MinorNoiseFreeProofs.noise_free_b): the planted assignment is admissible and
+        # scores 0 under the model's own objective - evaluated on the first minor call of every noise-free case
+        pl = planted_tuples(case, inst) if ("planted" in case and ci == 0) else None
+        parts.append(f"o_bool (noise_free_b here i {coq_asg(pl)})" if pl is not None else "OL []")
         terms.append(f"(let i := {coq_inst(inst)} in OL [{'; '.join(parts)}])")
     vals = common.coq_eval(IMPORTS, terms, shard=max(1, min(12, (len(terms) + 11) // 12)), jobs=12, timeout=900) if terms else []
     t2 = time.time()
@@ -856,7 +860,9 @@ def describe_asg(inst, asg):
 
 def judge(chk, case, ci, c, inst, rename, problems, raw, rep, v):
     stream = case["stream"]
-    wf, lpv, optv, rawv, rawpt, repv = v
+    wf, lpv, optv, rawv, rawpt, repv, nfb = v
+    if nfb in (0, 1):
+        chk.count(stream, "noise_free_b-" + ("holds" if nfb == 1 else "does-not-hold"))
     desc_base = {"stream": stream, "gene": case["gene"]}
     # ---- side conditions of the instance
     if not wf:
@@ -973,6 +979,19 @@ def judge(chk, case, ci, c, inst, rename, problems, raw, rep, v):
                          {"reported score": sc, "reported": describe_asg(inst, a)})
         if "planted" in case and k == 0:
             judge_planted(chk, case, inst, a, sc, d)
+
+
+def planted_tuples(case, inst):
+    """the planted (major, minor) copies as an assignment of the instance: every covered definition variant kept, nothing added"""
+    by = {(c["major"], c["minor"]): c for c in inst["cands"]}
+    seen, out = collections.Counter(), []
+    for mj, mi in case["planted"]:
+        c = by.get((mj, mi))
+        if c is None:
+            return None
+        out.append((c["id"], seen[c["id"]], [x for x in c["def"] if {m["id"]: m for m in inst["muts"]}[x]["pos"] in c["covpos"]], []))
+        seen[c["id"]] += 1
+    return out
 
 
 def judge_planted(chk, case, inst, a, sc, d):
